@@ -512,7 +512,12 @@ class FnAnalysis(Analysis):
             elif isinstance(node, ast.Expr):
                 self.val(node.value, st, stmt_ctx=st)
             elif isinstance(node, ast.Return):
-                st.env["<ret>"] = self.val(node.value, st) if node.value is not None else NONE
+                rv_ = self.val(node.value, st) if node.value is not None else NONE
+                if st.ctl and not self.ctl0 and not rv_.taint and self.fn.kind == "property" and rv_.kind in ("bool", "any", "none", "int") and self.R.cfg.env:
+                    # implicit flow: a predicate (property) that answers under a peer-decided branch gives a peer-decided answer
+                    # (`if not self.alive: return False`): whoever asserts it asserts something the peer controls
+                    rv_ = rv_.but(taint=True)
+                st.env["<ret>"] = rv_
             elif isinstance(node, (ast.FunctionDef, ast.AsyncFunctionDef)):
                 self.local_defs[node.name] = node
                 st.env[node.name] = Val(kind="func")
@@ -2059,6 +2064,10 @@ class FnAnalysis(Analysis):
                     el = st.env[k].elem
                     st.env[k] = st.env[k].but(elem=a0 if el is None else join_val(el, a0))
                 return NONE
+            if mname == "is_closing" and self.R.cfg.env:
+                # whether the transport is closing is decided by the peer (it can close the connection at any moment, also while this
+                # coroutine is suspended): with environment raisers included the answer is peer-controlled
+                return Val(True, "bool")
             if mname in BENIGN_METHODS:
                 return Val(taint)
             if mname in ("read",) and recv.kind in ("obj", "any") and not recv.types:
